@@ -32,6 +32,19 @@ def check_case(ctx, check_resave, case):
         shutil.rmtree(tmp, ignore_errors=True)
 
 
+def _banner(rows, cols, top, bottom):
+    """a table whose rows top+1..bottom are wholly hidden by a merge across the full width, with values above and below"""
+    from vf import a1
+
+    ops = [["write", r, c, {"t": "str", "v": f"r{r}c{c}"} if (r + c) % 2 else {"t": "int", "v": str(r * 10 + c)}] for r in range(rows) for c in range(cols)
+           if not (top <= r <= bottom)]
+    ops.insert(len(ops) // 2, ["merge", a1.cell_name(top, 0) + ":" + a1.cell_name(bottom, cols - 1)])
+    return {"styles": [], "custom_formats": [], "sheets": [{"name": "Sheet 1", "tables": [{"name": "Table 1", "rows": rows, "cols": cols, "hr": 1, "hc": 0, "ops": ops}]}]}
+
+
+FIXED_RECIPES = [_banner(8, 3, 1, 3), _banner(6, 1, 2, 3), _banner(12, 8, 4, 5)]
+
+
 def run(ctx, check_resave, n, seed, cycles):
     from hypothesis import strategies as st
 
@@ -43,4 +56,6 @@ def run(ctx, check_resave, n, seed, cycles):
 
     from hypothesis import Phase
 
+    for recipe in FIXED_RECIPES:
+        body((recipe, [True] * 6))
     run_given(ctx, strat, body, n, seed, phases=(Phase.explicit, Phase.generate))
